@@ -10,6 +10,8 @@ use std::collections::BTreeSet;
 pub struct C12;
 
 const SECOND_ID: u64 = 6;
+/// extra sweep cases at the edge of the quantifier's domain |l|,|u| <= 2^20: lower = -2^20 with widths 2^k-1, 2^k, 2^k+1 (k = 1..21, clipped), and a few corners
+const CORNERS: usize = 21 * 3 + 6;
 
 #[derive(Clone, Debug)]
 struct Case {
@@ -237,7 +239,7 @@ fn decode(t: &mut Tape, ctx: &mut Ctx) -> Case {
     let class = if t.p(80) { 1 + t.choice(10) as u8 } else { 0 };
     let others = t.byte();
     let target_pos = t.byte();
-    let frac = |t: &mut Tape| *t.pick(&[0.0, 0.5, 0.25, 0.999, 0.001, 0.75]);
+    let frac = |t: &mut Tape| *t.pick(&[0.0, 0.5, 0.25, 0.999, 0.001, 0.75, 5e-7, 0.9999995, 1e-7, 0.9999999, 2e-6, 0.999998]);
     let (mut lower, mut upper);
     match t.weighted(&[5, 3, 2]) {
         0 => {
@@ -373,13 +375,31 @@ impl Property for C12 {
             Tier::Quick => 601 + 3 * 3, // 0..=600 and {1023,1024,1025, 2047,2048,2049, 4095,4096,4097}
             Tier::Thorough => 4098,
         };
-        13 * widths
+        13 * widths + CORNERS
     }
     fn sweep_description(&self) -> Option<String> {
-        Some("lower in -6..=6 x width (quick: 0..=600 and 2^k-1,2^k,2^k+1 for k=10..12; thorough: 0..=4097): value set of the returned expression over all bit patterns must be exactly the range".into())
+        Some("lower in -6..=6 x width (quick: 0..=600 and 2^k-1,2^k,2^k+1 for k=10..12; thorough: 0..=4097): value set of the returned expression over all bit patterns must be exactly the range; plus 69 cases at the edge of the domain: lower = -2^20 with widths 2^k-1, 2^k, 2^k+1 for k = 1..21 and the corners (0,2^20), (-2^20,0), (-2^20,2^20-1), (-2^20+1,2^20), (2^20-1,2^20), (-2^20,-2^20)".into())
     }
     fn sweep_case(&self, tier: Tier, i: usize, ctx: &mut Ctx) -> PResult {
-        let widths = self.sweep_len(tier) / 13;
+        let widths = (self.sweep_len(tier) - CORNERS) / 13;
+        if i >= 13 * widths {
+            let j = i - 13 * widths;
+            let big: i64 = 1 << 20;
+            let (l, u): (i64, i64) = if j < 63 {
+                let k = 1 + (j / 3) as u32;
+                let w = (1i64 << k) - 1 + (j % 3) as i64;
+                (-big, (-big + w).min(big))
+            } else {
+                [(0, big), (-big, 0), (-big, big - 1), (-big + 1, big), (big - 1, big), (-big, -big)][j - 63]
+            };
+            let case = Case { lower: l as f64, upper: u as f64, class: 0, others: (j % 5) as u8, target_pos: (j % 3) as u8 };
+            ctx.label("class=ok");
+            ctx.label("corner");
+            ctx.nontrivial();
+            ctx.fp_dbg(&(l, u, "corner"));
+            ctx.sample_with(|| json!({"sweep": "corner of the domain", "lower": l, "upper": u}));
+            return check_case(&case, ctx);
+        }
         let l = (i / widths) as i64 - 6;
         let wi = i % widths;
         let w: u64 = match tier {
